@@ -20,7 +20,7 @@ def jobs(tier, seed):
     J = []
     shapes = [s for s in SH.CORPUS if s["type"] != "hull"]
     shapes += [{"type": "margin", "margin": 0.25, "inner": s} for s in (SH.CORPUS[0], SH.CORPUS[5], SH.CORPUS[6])]
-    seqs = [[0, 7], [3, 11, 20]] if tier == "quick" else [[0, 7], [3, 11, 20], [5, 5], [1, 14, 9], [23, 2]]
+    seqs = [[0, 7], [3, 11, 20], [5, 5]] if tier == "quick" else [[0, 7], [3, 11, 20], [5, 5], [1, 14, 9], [23, 2]]
     for sh in shapes:
         fam = sh["type"] if sh["type"] != "margin" else "margin_" + sh["inner"]["type"]
         for poses in seqs:
